@@ -9,6 +9,8 @@ use pelite::base_relocs::BaseRelocs;
 use pelite::strings::{Config, Heuristic};
 use pvh::pe::*;
 use pvh::*;
+#[path = "../iters_more.rs"]
+mod more;
 
 const K63: u64 = 1 << 63;
 /// case index at which the deeper exhaustive enumeration (thorough tier) starts
@@ -242,11 +244,13 @@ fn in_image(rng: &mut Rng, n: usize, wild: bool, pe64: bool, what: usize) -> Str
 	let mut size = if debug { (esz * n) as u32 } else { (esz * (n + 1)) as u32 };
 	let mut fill = if rng.chance(1, 2) { 0 } else { rng.range(1, 1000) as u32 };
 	let mut nodir = false;
+	// is an iterator handed out?  1 yes, 0 no, ? not predicted here (the directory runs on into the fill)
+	let mut it = "1";
 	if wild {
 		match rng.below(10) {
-			0 => if debug { size += 1 + rng.below(esz as u64 - 1) as u32; },   // size not a multiple: Invalid
-			1 => if !debug { payload.truncate(esz * n); fill = rng.range(1, 1000) as u32; }, // no terminator: runs on into the fill
-			2 => { nodir = true; },
+			0 => if debug { size += 1 + rng.below(esz as u64 - 1) as u32; it = "0"; },   // size not a multiple: Invalid
+			1 => if !debug { payload.truncate(esz * n); fill = rng.range(1, 1000) as u32; it = "?"; }, // no terminator: runs on into the fill
+			2 => { nodir = true; it = "0"; },
 			_ => {},
 		}
 	}
@@ -256,13 +260,24 @@ fn in_image(rng: &mut Rng, n: usize, wild: bool, pe64: bool, what: usize) -> Str
 		secs: vec![Sec { name: *b".data\0\0\0", va: 0x1000, vs: 0x400, prd: 0x200, srd: 0x400, chars: 0xC000_0040 }], checksum: 0, magic: if pe64 { 0x20b } else { 0x10b } };
 	spec.opt_size = spec.std_opt_size();
 	let img = Image { len: 0x600, fill, hdr: scrambled_header(&spec, rng), pokes: vec![(0x200 + x as usize, payload)] };
-	format!("{} exp={}", img.encode(), join(&exp, ","))
+	format!("{} it={} exp={}", img.encode(), it, join(&exp, ","))
 }
 
 const KINDS: [&str; 11] = ["rich", "relocs", "strings", "pgo", "imp32", "imp64", "dbg32", "dbg64", "wimp", "wdbg", "exc64"];
-fn is_full(kind: &str) -> bool { matches!(kind, "rich" | "imp32" | "imp64" | "dbg32" | "dbg64" | "exc64") }
+fn is_full(kind: &str) -> bool { matches!(kind, "rich" | "imp32" | "imp64" | "dbg32" | "dbg64" | "exc64") || more::is_full(kind) }
+/// every (kind, selector): the eleven kinds with hand-written or delegating iterators, then the compositions of std adaptors
+fn families() -> Vec<(&'static str, &'static str)> {
+	let mut v: Vec<(&'static str, &'static str)> = KINDS.iter().map(|k| (*k, "")).collect();
+	v.extend(more::FAMS.iter().cloned());
+	v
+}
 
-fn make_input(rng: &mut Rng, kind: &str, n: usize, wild: bool) -> String {
+/// the input fields and the number of items the iterator must yield on a structured input
+fn make_input(rng: &mut Rng, kind: &str, sel: &str, n: usize, wild: bool) -> (String, usize) {
+	if let Some(r) = more::make_input(rng, kind, sel, n, wild) { return r; }
+	(make_input_old(rng, kind, n, wild), n)
+}
+fn make_input_old(rng: &mut Rng, kind: &str, n: usize, wild: bool) -> String {
 	match kind {
 		"rich" => in_rich(rng, n, wild),
 		"relocs" => in_relocs(rng, n, wild),
@@ -299,19 +314,31 @@ fn alphabet(full: bool, n: usize) -> Vec<String> {
 fn gen(rng: &mut Rng, i: u64) -> String {
 	// ---- exhaustive part: every history of length `depth` over the alphabet, for sequences of 0..8 items;
 	// one case = one (kind, n, prefix of depth-2 ops) with all |alphabet|^2 completions, each followed by a drain
+	// The block is walked with a stride coprime to its size, so that ANY run of a few hundred consecutive indices
+	// (the component runs of C01 / C02 / C03 take the first 600-800) meets every family.
 	for (start, deep) in [(0u64, false), (DEEP_START, true)] {
+		if i < start { break; }
+		let fam_count = |kind: &str| -> u64 {
+			let depth: u32 = (if kind == "rich" { 4 } else { 3 }) + deep as u32;
+			9 * (alphabet(is_full(kind), 0).len() as u64).pow(depth - 2)
+		};
+		let total: u64 = families().iter().map(|(k, _)| fam_count(k)).sum();
+		if i >= start + total { continue; }
+		fn gcd(a: u64, b: u64) -> u64 { if b == 0 { a } else { gcd(b, a % b) } }
+		let stride = *[1009u64, 1013, 1019, 1021, 1031, 1033].iter().find(|s| gcd(**s, total) == 1).unwrap();
+		let i = start + ((i - start) * stride) % total;
 		let mut base = start;
-		if i < base { break; }
-		for kind in KINDS.iter() {
+		for (kind, sel) in families().iter() {
 			let full = is_full(kind);
 			let depth: u32 = (if *kind == "rich" { 4 } else { 3 }) + deep as u32;
 			let asz = alphabet(full, 0).len() as u64;
-			let nprefix = asz.pow(depth - 2);
-			let count = 9 * nprefix;
+			let count = fam_count(kind);
 			if i < base + count {
 				let j = i - base;
 				let n = (j % 9) as usize;
 				let mut pidx = j / 9;
+				// the number of items may differ from n when one of the tables of an export directory is null
+				let (input, n) = make_input(rng, kind, sel, n, false);
 				let alpha = alphabet(full, n);
 				let mut prefix: Vec<String> = Vec::new();
 				for _ in 0..depth - 2 { prefix.push(alpha[(pidx % asz) as usize].clone()); pidx /= asz; }
@@ -326,17 +353,17 @@ fn gen(rng: &mut Rng, i: u64) -> String {
 						hist.push("1d".into());
 					}
 				}
-				return format!("{} {} n={} wild=0 hist={}", kind, make_input(rng, kind, n, false), n, hist.join(","));
+				return format!("{} {} n={} wild=0 hist={}", kind, input, n, hist.join(","));
 			}
 			base += count;
 		}
 	}
 	// ---- random part
-	let kind = *rng.pick(&KINDS);
+	let (kind, sel) = *rng.pick(&families());
 	let full = is_full(kind);
 	let wild = rng.chance(1, 3);
 	let n = match rng.below(6) { 0 => 0, 1 => 1, 2 => rng.range(9, 20), _ => rng.range(2, 8) } as usize;
-	let input = make_input(rng, kind, n, wild);
+	let (input, n) = make_input(rng, kind, sel, n, wild);
 	let hlen = match rng.below(4) { 0 => rng.range(1, 6), _ => rng.range(6, 40) } as usize;
 	let mut hist: Vec<String> = Vec::new();
 	let mut slots = 1u64;
@@ -370,6 +397,7 @@ fn gen(rng: &mut Rng, i: u64) -> String {
 fn run(case: &str) -> String {
 	let kind = case.split(' ').next().unwrap();
 	let hist = field(case, "hist");
+	if let Some(obs) = more::run(case, kind, hist) { return obs; }
 	match kind {
 		"rich" => {
 			use pelite::pe64::{Pe, PeFile};
